@@ -30,14 +30,15 @@ ASSUMPTIONS = [
     "out-of-range integer indices may raise IndexError (statement silent); empty selections are valid empty sequences",
     "for complex or negative signals only validity and length of the comparison result are asserted",
 ]
-N_RUNS = {"quick": 1500, "thorough": 40000}
+N_RUNS = {"quick": 3000, "thorough": 40000}
 
-NEW_KINDS = ["str", "str_sp", "str_comma", "str_mixed", "list", "tuple", "arr_bool", "arr_int", "arr_float",
+NEW_KINDS = ["str", "str_sp", "str_comma", "str_mixed", "str_lead_sp", "str_lead_groups", "str_lead_comma", "str_trail",
+             "list", "tuple", "arr_bool", "arr_int", "arr_float",
              "arr_u8", "list_bool", "list_float", "scalar_int", "scalar_bool", "scalar_float", "np_scalar", "arr0d",
              "np_bool", "arr0d_bool", "tuple_npbool"]
-CAT_KINDS_R = ["obj", "obj", "str", "str_sp", "str_comma", "list", "tuple", "arr_int", "arr_bool", "arr_float",
+CAT_KINDS_R = ["obj", "obj", "str", "str_sp", "str_comma", "str_lead_sp", "str_lead_groups", "str_lead_comma", "list", "tuple", "arr_int", "arr_bool", "arr_float",
                "arr_u8", "list_bool"]
-CAT_KINDS_L = ["str", "str_sp", "list", "tuple", "list_bool", "str_comma"]
+CAT_KINDS_L = ["str", "str_sp", "list", "tuple", "list_bool", "str_comma", "str_lead_sp", "str_lead_groups", "str_trail"]
 BAD_NEW = ["two", "neg", "half", "str2", "stra", "2d", "none", "complex", "nan", "3d", "str2d", "strempty",
            "mixed_bad", "big", "strneg", "strfloat", "row2d", "col2d", "nest3d", "tuple_of_list", "ones_1x4", "arr_1x1",
            "frac_trunc", "wrap256", "neg_half", "inf", "inf_scalar", "neginf", "inf32", "str_nl", "str_tab", "str_cr",
@@ -118,7 +119,7 @@ def generate(seed, tier):
                         "thr": rng.choice(["pyfloat", "pyint", "npfloat", "list", "array", "len1"]),
                         "cmp": rng.choice([">", "<"]), "tie": rng.random() < 0.2,
                         "scale": rng.choice([1, 1, 1, 1, 1, 1, 1e-200, 1e200, 1e-170, 1e160, 5e9]),
-                        "mism": rng.choice([0, 0, 0, 0, 0, 0, 1, 2, -1, 7])})
+                        "mism": rng.choice([0, 0, 0, 0, 0, 0, 1, 2, -1, 7]), "again": rng.random() < 0.35})
         elif k == "bad_new":
             ops.append({"op": "bad_new", "what": rng.choice(BAD_NEW)})
         elif k == "bad_cat":
@@ -161,6 +162,14 @@ def _container(kind, bits):
         return ",".join(str(b) for b in bits), None
     if kind == "str_mixed":
         return "".join(str(b) + (", " if k % 3 == 0 else " " if k % 3 == 1 else "") for k, b in enumerate(bits)), None
+    if kind == "str_lead_sp":       # separators before the first bit / after the last one
+        return " " + "".join(str(b) for b in bits), None
+    if kind == "str_lead_groups":
+        return " " + "".join(str(b) + (" " if k % 3 == 0 else "") for k, b in enumerate(bits)).rstrip(), None
+    if kind == "str_lead_comma":
+        return ", " + ",".join(str(b) for b in bits), None
+    if kind == "str_trail":
+        return "".join(str(b) for b in bits) + " ", None
     if kind == "list":
         return list(bits), None
     if kind == "tuple":
@@ -589,6 +598,26 @@ class Machine:
                                                f"{bad}: total={tv[bad]} thr={thr_arr[bad]}", what)
         self._no_alias(res, what, [x.signal, x.noise])
         self._laws(res, what)
+        if op.get("again") and dom == "nonneg" and not self.frozen and sig.dtype.kind == "f" and n >= 1:
+            # the owner updates the samples of the same object in place and compares again: the decision must follow
+            # the present samples (nothing remembered from the first comparison)
+            rs2 = np.random.RandomState(op["dseed"] ^ 0x5A5A)
+            x.signal[::2] = np.round(rs2.uniform(0, 2, x.signal[::2].shape), 2) * sc_
+            if x.noise is not None:
+                x.noise += np.round(rs2.uniform(0, 0.3, n), 2) * sc_
+            tot2 = np.asarray(x.signal if x.noise is None else x.signal + x.noise).real
+            try:
+                res2 = (x > thr) if op["cmp"] == ">" else (x < thr)
+            except Exception as e:
+                raise Violation("C15/reject", f"{what}: second comparison after an in-place update raised {e!r}", what)
+            self._valid(res2, what)
+            exp2 = ((tot2 > thr_arr) if op["cmp"] == ">" else (tot2 < thr_arr)).astype(int).tolist()
+            if res2.data.tolist() != exp2:
+                bad = [k for k in range(n) if res2.data[k] != exp2[k]][:5]
+                raise Violation("C15/compare", f"{what}: after the signal was updated in place the comparison does not "
+                                               f"follow the present samples at {bad}: total={tot2[bad]} thr={thr_arr[bad]}",
+                                what + "/again")
+            self.rec.fault("operand_updated_in_place")
         self._push(res, res.data.tolist())
         self.rec.ok_ops += 1
         self.rec.sig("compare", f"{op['cmp']}{dom}{tk}", _lenclass(n), "noise" if op["noise"] else "clean")
